@@ -104,6 +104,8 @@ func describeOp(in Op) string {
 
 // doCall performs one call of a task script against the shared log. It touches no harness
 // state shared between tasks.
+var errCancelCause = errors.New("verifsim: cause given to the cancel function")
+
 func doCall(l klevdb.Log, bl klevdb.BlockingLog, ctxs []context.Context, cfg *RunCfg, in *Op) (out hOut) {
 	err := guard(func() error {
 		switch in.K {
@@ -522,6 +524,13 @@ func runPlanS(def *PropDef, p *Plan, scratch string) *RunResult {
 	nt := len(p.Tasks)
 	sr.hist = make([][]hOp, nt)
 	for i := 0; i < 16; i++ {
+		if i%2 == 1 {
+			// a context that ends with a cause: the call must still fail with the context's
+			// error (context.Canceled), not with whatever the canceller passed as the cause
+			c, cf := context.WithCancelCause(context.Background())
+			sr.ctxs, sr.cncl = append(sr.ctxs, c), append(sr.cncl, func() { cf(errCancelCause) })
+			continue
+		}
 		c, cf := context.WithCancel(context.Background())
 		sr.ctxs, sr.cncl = append(sr.ctxs, c), append(sr.cncl, cf)
 	}
@@ -540,6 +549,14 @@ func runPlanS(def *PropDef, p *Plan, scratch string) *RunResult {
 				in := p.Tasks[ti][ci]
 				if def.ID == "C18" && sr.controllerOp(s, ti, &in, r.L, bl) {
 					continue
+				}
+				if def.ID == "C18" && in.K == "consume_b" && in.A <= -1000 {
+					next, _ := r.L.NextOffset()
+					in.A = max(next-1-(-1000-in.A), 0)
+					if next == 0 {
+						in.A = klevdb.OffsetNewest
+					}
+					sr.res.Probes["late_wait_below_next"]++
 				}
 				e := hOp{Task: ti, Idx: ci, In: in}
 				e.Call = s.StepStamp()
@@ -828,6 +845,9 @@ func (sr *sRun) controllerOp(s *sim.Sched, ti int, in *Op, l klevdb.Log, bl klev
 		// (a) no lost wake-up: whoever is still parked must have a reason to be
 		next, _ := l.NextOffset()
 		for wi, script := range sr.plan.Tasks {
+			if wi == ti {
+				continue // the controller's own waits have returned or not started
+			}
 			for _, op := range script {
 				if op.K != "consume_b" && op.K != "consume_key_b" {
 					continue
